@@ -367,6 +367,8 @@ func (l *Lexer) readString() (string, int, int, int) {
 			if l.skipNewlineWhitespace() {
 				l.skipWhitespace()
 				sb.WriteRune(' ')
+				// The line break may have been the last thing before the closing quote.
+				continue
 			}
 			sb.WriteRune(l.ch)
 			l.readChar()
